@@ -5,7 +5,13 @@ Cython twin is not analysed).  Tables are *computed* from the source by a tiny
 concrete evaluator over constants (string/bytes/int/dict expressions, loops
 over constants, comprehensions) - nothing from the repository is imported or
 executed - and compared with RFC 3986; control-flow clauses are dominance /
-reachability queries on the CFG.
+reachability queries on the CFG, or path facts computed by a small forward
+dataflow (`_forward` / `_restrict`: what a branch outcome says about the
+input, with and/or in short-circuit order) - per configuration of the encoder
+factory for R1 (the closure constants are known), over the outcomes of
+`host.startswith('[')` for R6.  A test about the input whose shape is not read
+never makes a violation: it turns the verdict that would need it into
+UnknownIdiom.
 """
 
 from __future__ import annotations
@@ -16,7 +22,7 @@ from typing import Dict, List, Optional, Set, Tuple
 from .. import flow
 from ..cfg import cfg_of
 from ..model import UNKNOWN, AnchorError, Func, UnknownIdiom, dotted, short, walk_no_nested
-from .c11 import _assignments, _guard_verdict, _safe, _truthiness
+from .c11 import _assignments, _guard_verdict, _safe
 from .common import enclosing_map, single, walk_self
 
 URI = 'falcon.util.uri'
@@ -559,6 +565,39 @@ def _stored_names(fnode) -> Set[str]:
     return out
 
 
+def _derived_locals(fnode, seeds: Set[str]) -> Set[str]:
+    """Locals whose value depends on the names in `seeds`: through the
+    expression assigned, or because the assignment sits under an if/while/for
+    whose condition (iterable) depends on them."""
+    from .common import ancestors
+    parent = enclosing_map(fnode)
+    names = _stored_names(fnode) - seeds
+    derived: Set[str] = set()
+
+    def dep(e) -> bool:
+        return e is not None and any(isinstance(x, ast.Name) and x.id in derived | seeds for x in ast.walk(e))
+
+    changed = True
+    while changed:
+        changed = False
+        for name in sorted(names - derived):
+            for (stmt, val) in _assignments(fnode, name):
+                srcs = [val] if val is not None else [getattr(stmt, 'value', None), getattr(stmt, 'iter', None)]
+                hit = any(dep(x) for x in srcs)
+                for anc in ancestors(stmt, parent):
+                    if hit or anc is fnode:
+                        break
+                    if isinstance(anc, (ast.If, ast.While, ast.IfExp)):
+                        hit = dep(anc.test)
+                    elif isinstance(anc, (ast.For, ast.AsyncFor)):
+                        hit = dep(anc.iter)
+                if hit:
+                    derived.add(name)
+                    changed = True
+                    break
+    return derived
+
+
 def _return_parts(enc: Func, up: str, table_var: str, v) -> List[tuple]:
     """The value a nested encoder returns, as a concatenation of
     ('whole', node)  the input itself,
@@ -639,17 +678,7 @@ class _EncPaths:
                 for i, (stmt, _k) in enumerate(ds):
                     self.binder.setdefault(id(stmt), []).append((name, i))
         # locals computed from the input (for the "unread test" bookkeeping)
-        self.derived: Set[str] = set()
-        changed = True
-        while changed:
-            changed = False
-            for name in self.locals - {up} - self.derived:
-                for (stmt, val) in _assignments(enc.node, name):
-                    srcs = [val] if val is not None else [getattr(stmt, 'value', None), getattr(stmt, 'iter', None)]
-                    if any(s is not None and self._mentions(s, self.derived | {up}) for s in srcs):
-                        self.derived.add(name)
-                        changed = True
-                        break
+        self.derived: Set[str] = _derived_locals(enc.node, {up})
         # token loops of the already-escaped heuristic: their tests are about the text between two '%'
         self.token_loops = []
         for n in walk_self(enc.node):
@@ -1828,6 +1857,16 @@ def r5_check_escaped(run):
         return
     loop = single(loops, "loop over the '%'-separated tokens", enc.qual)
     tok = loop.target.id
+    # the shapes understood below carry the outcome of the scan in the control flow (break / for-else);
+    # a flag set inside the loop and tested after it is another idiom
+    inside = {id(x) for x in ast.walk(loop)}
+    set_in_loop = {x.id for x in ast.walk(loop) if isinstance(x, ast.Name) and isinstance(x.ctx, ast.Store)}
+    for t in cfg.live_nodes():
+        if t.kind == 'test' and id(t.ast) not in inside:
+            flags = sorted({x.id for x in ast.walk(t.ast) if isinstance(x, ast.Name)} & set_in_loop)
+            if flags:
+                raise UnknownIdiom('%s: the outcome of the escape check is carried by the local %s (test %s)' % (
+                    enc.qual, flags[0], short(t.ast, 60)))
     lo = p.fold(enc.module, loop.iter.slice.lower, None, None) if loop.iter.slice.lower is not None else None
     run.check(lo == 1 and loop.iter.slice.upper is None and loop.iter.slice.step is None,
               'every token that follows a % is examined', enc, loop.iter, where=enc.loc(loop),
@@ -1980,24 +2019,31 @@ def _sep_atom(e, host: str) -> Optional[bool]:
     return None
 
 
+def _bracket_atom(e, host: str) -> Optional[bool]:
+    """True when e being true means the host starts with '[', False when it means it does not, None: no such atom."""
+    if isinstance(e, ast.Call) and isinstance(e.func, ast.Attribute) and e.func.attr == 'startswith' \
+            and isinstance(e.func.value, ast.Name) and e.func.value.id == host and len(e.args) == 1 and not e.keywords \
+            and isinstance(e.args[0], ast.Constant) and e.args[0].value == '[':
+        return True
+    if isinstance(e, ast.Compare) and len(e.ops) == 1 and isinstance(e.ops[0], (ast.Eq, ast.NotEq)) \
+            and isinstance(e.comparators[0], ast.Constant) and e.comparators[0].value == '[':
+        l = e.left
+        first = isinstance(l, ast.Subscript) and isinstance(l.value, ast.Name) and l.value.id == host and (
+            (isinstance(l.slice, ast.Constant) and l.slice.value == 0)
+            or (isinstance(l.slice, ast.Slice) and l.slice.step is None and _lin(l.slice.lower) == (None, 0)
+                and l.slice.upper is not None and _lin(l.slice.upper) == (None, 1)))
+        if first:
+            return isinstance(e.ops[0], ast.Eq)
+    return None
+
+
 def _bracket_paths(f: Func, cfg, host: str):
     """For every node: which outcomes of host.startswith('[') are possible on
     the paths that reach it ({True}, {False}, both), plus the tests about the
     host (or a local computed from it) whose shape is not read."""
     opaque: Set[int] = set()
     cur = [None]
-    derived: Set[str] = set()
-    changed = True
-    names = _stored_names(f.node) - {host}
-    while changed:
-        changed = False
-        for name in names - derived:
-            for (stmt, val) in _assignments(f.node, name):
-                srcs = [val] if val is not None else [getattr(stmt, 'value', None), getattr(stmt, 'iter', None)]
-                if any(x is not None and any(isinstance(y, ast.Name) and y.id in derived | {host} for y in ast.walk(x)) for x in srcs):
-                    derived.add(name)
-                    changed = True
-                    break
+    derived = _derived_locals(f.node, {host})
 
     def is_host(e):
         return isinstance(e, ast.Name) and e.id == host
@@ -2006,21 +2052,7 @@ def _bracket_paths(f: Func, cfg, host: str):
         return e.value if isinstance(e, ast.Constant) and isinstance(e.value, str) else None
 
     def positive(e) -> Optional[bool]:
-        """atom: True when e true means "starts with '['", False when e true means it does not"""
-        if isinstance(e, ast.Call) and isinstance(e.func, ast.Attribute) and e.func.attr == 'startswith' \
-                and isinstance(e.func.value, ast.Name) and e.func.value.id == host and len(e.args) == 1 and not e.keywords \
-                and isinstance(e.args[0], ast.Constant) and e.args[0].value == '[':
-            return True
-        if isinstance(e, ast.Compare) and len(e.ops) == 1 and isinstance(e.ops[0], (ast.Eq, ast.NotEq)) \
-                and isinstance(e.comparators[0], ast.Constant) and e.comparators[0].value == '[':
-            l = e.left
-            first = isinstance(l, ast.Subscript) and isinstance(l.value, ast.Name) and l.value.id == host and (
-                (isinstance(l.slice, ast.Constant) and l.slice.value == 0)
-                or (isinstance(l.slice, ast.Slice) and l.slice.step is None and _lin(l.slice.lower) == (None, 0)
-                    and l.slice.upper is not None and _lin(l.slice.upper) == (None, 1)))
-            if first:
-                return isinstance(e.ops[0], ast.Eq)
-        return None
+        return _bracket_atom(e, host)
 
     def atom(e, truth, state, leaf):
         pol = positive(e)
@@ -2087,6 +2119,7 @@ def r6_parse_host(run):
         raise AnchorError('parse_host: expected at least three returns')
     from .common import implied
     bracket, opaque = _bracket_paths(f, cfg, host)
+    about_host = _derived_locals(f.node, {host}) | {host}
     n_fail = 0
     for n in rets:
         v = n.ast.value
@@ -2148,6 +2181,23 @@ def r6_parse_host(run):
                                 found = True
             if not found and unknown is not None:
                 raise UnknownIdiom('parse_host: test %s' % short(unknown.ast, 80))
+            if not found:
+                # a test about the host that is read neither as a separator test nor as a bracket test
+                # may be what establishes the separator (host.count(':') == 1, ...)
+                back = flow.co_reachable(cfg, [n.id])
+                for t in cfg.live_nodes():
+                    if t.kind != 'test' or t.id not in back:
+                        continue
+                    stack = [t.ast]
+                    while stack:
+                        e = stack.pop()
+                        if isinstance(e, ast.BoolOp):
+                            stack += e.values
+                        elif isinstance(e, ast.UnaryOp) and isinstance(e.op, ast.Not):
+                            stack.append(e.operand)
+                        elif _sep_atom(e, host) is None and _bracket_atom(e, host) is None \
+                                and any(isinstance(x, ast.Name) and x.id in about_host for x in ast.walk(e)):
+                            raise UnknownIdiom('parse_host: test %s (was a port separator found at %s?)' % (short(t.ast, 60), short(v, 60)))
             run.check(found, 'a numeric port is returned only where a port separator was found', f, n.ast, where=where,
                       runtime_witness="parse_host('example.org') raises ValueError from int('')")
     if not n_fail and not any(bracket.get(n.id) == frozenset({True}) for n in rets):
@@ -2157,9 +2207,10 @@ def r6_parse_host(run):
 def check(run):
     run.assume('the pure-Python reference falcon/util/uri.py is what is decided; falcon/cyutil/uri.pyx is not analysed')
     run.assume('tables are computed from the source by a constant evaluator (str/bytes/int/dict expressions, loops and comprehensions over constants)')
-    run.rule('R1', _safe(r1_alphabets), 'allowed alphabets vs RFC 3986 2.2/2.3; % and + excluded; pass-through guards', floor=14)
+    run.rule('R1', _safe(r1_alphabets), 'allowed alphabets vs RFC 3986 2.2/2.3; % and + excluded; per configuration: whatever reaches the output without passing '
+             'through the char table (whole input, stripped tail) is over the allowed alphabet, % only after the already-escaped check accepted', floor=14)
     run.rule('R2', _safe(r2_escape_shape), "escape shape %XX upper-case over UTF-8 bytes; _HEX_TO_BYTE complete and inverse", floor=10)
     run.rule('R3', _safe(r3_bindings), 'public encoder bindings and their users', floor=12)
     run.rule('R4', _safe(r4_decoder_paths), 'the three decoder paths share one skeleton; plus handling; shortcut', floor=20)
     run.rule('R5', _safe(r5_check_escaped), 'check-escaped loop: for/else acceptance, hex digits, fall-through; no character-class test on a possibly empty slice', floor=8)
-    run.rule('R6', _safe(r6_parse_host), 'parse_host return shapes', floor=8)
+    run.rule('R6', _safe(r6_parse_host), 'parse_host return shapes; brackets stripped on every path where host.startswith("[") is not excluded, and only there', floor=8)
